@@ -2316,6 +2316,36 @@ func c03ReprGrid() []c03cval {
 	return l
 }
 
+// c03IntKonstsAroundFloatMax: integer-kind constants (literals, shift expressions, and through them
+// named untyped integer constants) around the overflow thresholds of the floating-point types: the
+// largest integer that still rounds to the largest finite float32, the threshold itself
+// (a tie that rounds to 2^128: not representable), powers of two beyond it, and their
+// negations.  An integer constant of any magnitude must be refused by a float destination it
+// overflows, in every implicit and explicit conversion context.
+func c03IntKonstsAroundFloatMax() []c02Konst {
+	pow := func(k uint) *big.Int { return new(big.Int).Lsh(big.NewInt(1), k) }
+	var ks []c02Konst
+	add := func(name string, z *big.Int, shiftExpr string) {
+		k := c02Konst{Name: "integer around " + name, Val: new(big.Rat).SetInt(z), Exprs: []string{z.String()}}
+		if shiftExpr != "" {
+			k.Exprs = append(k.Exprs, shiftExpr)
+		}
+		ks = append(ks, k)
+	}
+	t32 := new(big.Int).Sub(pow(128), pow(103))
+	add("the float32 threshold - 1", new(big.Int).Sub(t32, big.NewInt(1)), "1<<128 - 1<<103 - 1")
+	add("the float32 threshold", t32, "1<<128 - 1<<103")
+	add("2^128", pow(128), "1 << 128")
+	add("2^128 + 1", new(big.Int).Add(pow(128), big.NewInt(1)), "1<<128 + 1")
+	add("2^200", pow(200), "1 << 200")
+	add("-2^128", new(big.Int).Neg(pow(128)), "-1 << 128")
+	add("-2^200", new(big.Int).Neg(pow(200)), "-(1 << 200)")
+	add("2^500", pow(500), "1 << 500")
+	// (integer constants beyond 512 bits are refused by the Go type checker as such: the float64
+	// threshold cannot be reached by an integer-kind constant)
+	return ks
+}
+
 // ---------------------------------------------------------------- rounding to floating-point types (enumerated)
 
 // c03Rounding: constants chosen for float32 / float64 rounding (the list of harness/c02_const.go:
@@ -2381,7 +2411,7 @@ func c03Rounding(thorough bool) []*c03prog {
 	rot := 0
 	for _, t := range []string{"float32", "float64"} {
 		var blockLits []*cx
-		for ki, k := range c02Konsts() {
+		for ki, k := range append(c02Konsts(), c03IntKonstsAroundFloatMax()...) {
 			if len(k.Exprs) == 0 {
 				continue
 			}
@@ -2393,7 +2423,13 @@ func c03Rounding(thorough bool) []*c03prog {
 				f, _ := k.Val.Float64()
 				finite = !math.IsInf(f, 0)
 			}
-			sensitive := t == "float32" && c02DoubleRoundingDiffers(k.Val)
+			if t == "float32" && finite {
+				// a typed declaration of an expression reaches float32 through float64 in yaegi
+				// (convertConstantValue): when that overflows the model stops (infinity), see below
+				f64, _ := k.Val.Float64()
+				finite = !math.IsInf(float64(float32(f64)), 0)
+			}
+			sensitive := t == "float32" && c02DoubleRoundingDiffers(k.Val) || strings.HasPrefix(k.Name, "integer around")
 			for si, sp := range k.Exprs {
 				e := mk(sp)
 				forms := exprForms
